@@ -17,7 +17,15 @@ def _scan_directory(path, eapi):
             files.append(filename)
         else:
             logger.error(f"incorrectly named update file: {filename!r}")
-    return sorted(files)
+
+    def chronological(filename):
+        # [1-4]Q-YYYY: order by year, then quarter; other schemes keep name order
+        quarter, sep, year = filename.partition("Q-")
+        if sep and quarter.isdigit() and year.isdigit():
+            return (0, int(year), int(quarter), filename)
+        return (1, 0, 0, filename)
+
+    return sorted(files, key=chronological)
 
 
 def read_updates(path, eapi):
